@@ -20,7 +20,8 @@ import (
 // chunked by the real queue and packed by the real binnable / Bin.
 //
 // PRNG worlds: 1-7 cached files, each with one of the receiver-side states
-//   - partial of the cached version (0-5 received ranges, adjacent / out of order / whole),
+//   - partial of the cached version (0-5 received ranges, adjacent / out of order / whole /
+//     overlapping or nested, as left by a retransmission cut at other boundaries),
 //   - partial of another version of the name,
 //   - no partial,
 //   - cached as done,
@@ -158,6 +159,18 @@ func c11RecoverRun(c *Ctx, idx int, rng *rand.Rand, sc *c11rScenario) {
 				out = append(out, &sts.ByteRange{Beg: beg, End: beg + ln})
 				rf.Held = append(rf.Held, [2]int64{beg, beg + ln})
 				pos = beg + ln
+				if rng.Intn(4) == 0 && beg+ln > 1 {
+					// the same bytes arrived again in a differently cut part (a
+					// retransmission with other payload boundaries): the companion
+					// lists both ranges, overlapping or nested
+					ob := beg + rng.Int63n(ln)
+					oe := ob + 1 + rng.Int63n(size-ob)
+					out = append(out, &sts.ByteRange{Beg: ob, End: oe})
+					rf.Held = append(rf.Held, [2]int64{ob, oe})
+					if oe > pos {
+						pos = oe
+					}
+				}
 			}
 			rng.Shuffle(len(out), func(i, j int) { out[i], out[j] = out[j], out[i] }) // companions list parts in arrival order
 			return out
@@ -175,7 +188,9 @@ func c11RecoverRun(c *Ctx, idx int, rng *rand.Rand, sc *c11rScenario) {
 				if p.Beg > pos {
 					want[name] = append(want[name], iv{pos, p.Beg})
 				}
-				pos = p.End
+				if p.End > pos {
+					pos = p.End
+				}
 			}
 			if pos < size {
 				want[name] = append(want[name], iv{pos, size})
